@@ -438,6 +438,9 @@ def check(ctx):
                         if label == "exc" and tnode not in rel and (tnode is gd.raise_ or _escapes(gd, tnode, rel)):
                             bad.append(s.lineno)
             ctx.ob("R5", f"{d.qual}::{kind}::on-cancellation", not bad, f"{d.qual}: cancelled at the await(s) on line(s) {sorted(set(bad))}, the function leaves without {kind}", d.loc)
+    # the cancel itself: every live task of the domain is reached, also with finished tasks lying around (C10's registry model)
+    from ..taskmodel import check_registry
+    check_registry(ctx.borrowed("R5", "C10"), repo, "R3", pump_key="LOC", only=("forgotten",))
     # R6: the reply's identifier/name reach the descriptor intact: payload extraction is exact (shared with C04)
     from .c04 import hello_payload_extraction, text_parts
     hello_payload_extraction(ctx, repo, rule="R6")
